@@ -74,9 +74,7 @@ class FCISolverPySCF(ElectronicStructureSolver):
             self.cassolver = mcscf.CASSCF(molecule.mean_field,
                                           molecule.n_active_mos,
                                           (self.n_alpha, self.n_beta))
-            mos = self.cassolver.sort_mo([i+1 for i in molecule.active_mos])
-            self.h1e_cas, self.ecore = self.cassolver.get_h1eff(mos)
-            self.h2e_cas = self.cassolver.get_h2eff(mos)
+            self.active_mos = list(molecule.active_mos)
             # Initialize the FCI solver that will use the effective Hamiltonian generated from CAS
             self.cisolver = fci.direct_spin1.FCI()
         else:
@@ -96,7 +94,10 @@ class FCISolverPySCF(ElectronicStructureSolver):
             float: Total FCI energy.
         """
 
-        if self.cas:  # Use previously generated effective Hamiltonian to obtain FCI solution
+        if self.cas:  # Generate the effective Hamiltonian in the current molecular orbitals and obtain the FCI solution
+            mos = self.cassolver.sort_mo([i+1 for i in self.active_mos], mo_coeff=self.mean_field.mo_coeff)
+            self.h1e_cas, self.ecore = self.cassolver.get_h1eff(mos)
+            self.h2e_cas = self.cassolver.get_h2eff(mos)
             energy, self.ci = self.cisolver.kernel(self.h1e_cas,
                                                    self.h2e_cas,
                                                    self.norb,
